@@ -281,10 +281,34 @@ func TestC38(t *testing.T) {
 		rev := map[intern.ID]string{}
 		n := rng.Range(50, 3000)
 		pool := makePool(rng, rng.Range(5, 400))
+		// odd cases go through the byte-slice entry points with ONE scratch buffer that the caller
+		// overwrites as soon as the call has returned (InternBytes / QueryBytes promise not to keep it)
+		viaBytes := i%2 == 1
+		scratch := make([]byte, 0, 64)
+		load := func(s string) []byte {
+			scratch = append(scratch[:0], s...)
+			return scratch
+		}
+		scribble := func() {
+			scratch = scratch[:cap(scratch)]
+			for j := range scratch {
+				scratch[j] = byte('Z' - j%7)
+			}
+		}
+		if viaBytes {
+			r.Class("sequential: byte-slice entry points with a reused scratch buffer")
+		}
 		for k := 0; k < n; k++ {
 			s := pool[rng.Intn(len(pool))]
 			if rng.Chance(0.3) {
-				q, ok := tb.Query(s)
+				var q intern.ID
+				var ok bool
+				if viaBytes {
+					q, ok = tb.QueryBytes(load(s))
+					scribble()
+				} else {
+					q, ok = tb.Query(s)
+				}
 				want, in := ref[s]
 				if inlineable(s) {
 					in = true
@@ -295,7 +319,13 @@ func TestC38(t *testing.T) {
 				}
 				continue
 			}
-			got := tb.Intern(s)
+			var got intern.ID
+			if viaBytes {
+				got = tb.InternBytes(load(s))
+				scribble()
+			} else {
+				got = tb.Intern(s)
+			}
 			if old, ok := ref[s]; ok && old != got {
 				r.Violation("intern.unstable-id", "sequential: same string, different ids", id, map[string]any{"s": s, "first": int32(old), "now": int32(got)})
 				return
